@@ -92,6 +92,17 @@ def dangling(net):
             cache[dst] = labels(net, dst)
         if tg not in cache[dst]:
             bad.append((src, si, dst, tg, what))
+    # group members addressed through a reference column (e.g. by name)
+    if len(net.group):
+        for k, (gi, g) in enumerate(net.group.iterrows()):
+            rc = g.reference_column
+            if rc is None or (isinstance(rc, float) and math.isnan(rc)):
+                continue
+            et = str(g.element_type)
+            have = set(net[et][rc].values) if et in net and rc in net[et] else set()
+            for e in list(g.element_index):
+                if e not in have:
+                    bad.append(("group", k, et, str(e), "group.element_index(by " + str(rc) + ")"))
     return bad
 
 
@@ -140,6 +151,14 @@ def rich_net(rng, pp):
     if len(net.load) > 1:
         pp.create_group(net, ["load", "line"], [[int(i) for i in list(net.load.index)[:2]], [int(lines[0])]] if lines else
                         [[int(i) for i in list(net.load.index)[:2]], []], name="g")
+        if rng.random() < 0.5:
+            # a second group that addresses its members by name
+            net.load["name"] = [f"load_{i}" for i in net.load.index]
+            if lines:
+                net.line["name"] = [f"line_{i}" for i in net.line.index]
+            pp.create_group(net, ["load", "line"] if lines else ["load"],
+                            [[f"load_{i}" for i in list(net.load.index)[:2]]] + ([[f"line_{lines[0]}"]] if lines else []),
+                            name="by name", reference_columns=["name", "name"] if lines else ["name"])
         if rng.random() < 0.6:
             from pandapower.control import ConstControl
             ConstControl(net, "load", "p_mw", element_index=[int(net.load.index[-1])], profile_name=None, data_source=None)
